@@ -337,11 +337,20 @@ def check(repo: Repo, run: Run) -> None:
         raise AnalysisError(f"from_kd_buf uses an unsupported construct: {rec.notes[0]}")
     if not rets:
         raise AnalysisError("from_kd_buf has no return")
-    ret = rets[0].value
+    def is_kevent(v):
+        return v.op == "call" and v.a[0].op == "global" and v.a[0].a[0].endswith("kevent.Kevent")
+    for r_ in rets:
+        if not is_kevent(r_.value):
+            run.ob("R2", MOD, "from_kd_buf", f"return at line {r_.lineno} is the decoding of the record", False,
+                   f"from_kd_buf returns {sym.pretty(r_.value)[:60]} when {[sym.pretty(c)[:40] + ('' if p_ else ' is false') for c, p_ in r_.pc]}"
+                   f": a value that is not computed from the record's own fields (timestamp, arguments and thread id are lost)",
+                   line=r_.lineno, witness="a record for which that condition holds while its other fields are non-zero")
+    good = [r_ for r_ in rets if is_kevent(r_.value)]
+    if not good:
+        raise AnalysisError(f"from_kd_buf does not return a Kevent(...) call: {sym.pretty(rets[0].value)[:80]}")
+    ret = good[0].value
 
     # ---- R2 binding
-    if not (ret.op == "call" and ret.a[0].op == "global" and ret.a[0].a[0].endswith("kevent.Kevent")):
-        raise AnalysisError(f"from_kd_buf does not return a Kevent(...) call: {sym.pretty(ret)[:80]}")
     _, args, kwargs = ret.a
     bound = {}
     for name, a in zip(fields, args):
